@@ -28,6 +28,10 @@ CHECKS = {
    "Runtime monitor on a fully assembled real node under the race detector: a finite list of connection-ending faults (client disconnects, go-away then close, go-away with siblings, FIN/RST cuts through an interposed proxy, server-side shedding, server shutdown, token expiry with and without disconnect-on-expiry) is run one by one and in seeded sequences over 1-24 concurrent upstreams with requests in flight; at every quiescent point the registry, the routing-table entry, the published gossip entries and the session count must equal the connections the harness holds open, and be empty at the end; expiring tokens must be closed inside [T-1.1 s, T+5 s] and not otherwise.",
    "Quiescence is polled (20 s); the expiry window is the only wall-clock verdict and is generous; rebalance parameters set through a verif-tagged setter.",
    "runtime monitoring: enumerated fault list with a four-view equality oracle at quiescent points + race detector", "4/C16"),
+ "C20": (E2, "exploration",
+   "Sanitizer + runtime monitor: race-built real nodes under 16-64 goroutines of mixed upstream churn, HTTP/TCP requests, status reads and node restarts with a 30 s per-operation watchdog, and the gossip core over real sockets with its periodic task bodies invoked at high frequency next to writers and readers; zero race reports, zero panics/fatal errors (child-process isolation), zero watchdog expiries, and mutual consistency of registry, routing table and published gossip at the final quiescent point.",
+   "The Go race detector observes only the interleavings that occurred; workloads are repeated and perturbed, not enumerated. C05/C15 concurrent phases add to the reach.",
+   "sanitizer (Go race detector) + bounded-completion watchdog + quiescent-consistency oracle over repeated stress workloads", "4/C20"),
  "C17": (E1, "exploration",
    "Runtime monitor: seeded operation sequences on the real clusterState checked after every operation against a last-write-wins reference model, plus lagging/fresh observer synchronisation in the simulator.",
    "Reserved _internal: keys are not written by callers; single goroutine.",
